@@ -106,7 +106,13 @@ Definition has (k : bytes) (l : list bytes) : bool := existsb (bytes_eqb k) l.
     the model predicted the observed output.
       1  the key was written at a GC yield point (F12: GC writes its stale copy back over it)
       3  the read fails in the value log: a deleted/expired entry whose file GC removed
-      11 an older write of the same version answers (C01-F2 / C02-F2: equal internal keys in tables
+      5  the read of a live entry fails in the value log because the LSM lookup selects the ORIGINAL
+         entry of a record that GC has rewritten: original and rewritten copy carry the same
+         internal key and sit in tables whose lookup order is not their age (ingest buffer,
+         C01-F2 / C02-F2); the original's file was removed by a later GC pass (and, trusting the
+         same lookup, a further pass may remove the rewritten copy's file too: the value is lost)
+      11 an older write of the same version answers - or fails in the value log because GC has
+         meanwhile removed the overwritten value's file - (C01-F2 / C02-F2: equal internal keys in tables
          whose order is not their age), not caused by GC
     (class 4 - Txn.Get reporting a zero-length value as absent once a table serves it - was retired
     with /repo 0719305; classes 2 and 12 - an older VERSION answering, after a GC write-back or after user writes in
@@ -116,7 +122,20 @@ Definition classify (now : N) (a : acc) (k : bytes) (spec lsm : option rec) (agr
   if has k (a_raced a) then 1
   else if negb agree then 999
   else match o, lsm with
-       | OErr, Some m => if dead now m then 3 else 999
+       | OErr, Some m =>
+           if dead now m then 3
+           else if is_ptr m &&
+                   existsb (fun x => if bytes_eqb (r_key x) (r_key m) then
+                                       if r_ver x =? r_ver m then
+                                         if r_seq m <? r_seq x then is_ptr x else false
+                                       else false
+                                     else false)
+                           (contents (d_lsm (a_db a)))
+                then 5
+           else match spec with
+                | Some w => if (r_ver m =? r_ver w) && (r_seq m <? r_seq w) then 11 else 999
+                | None => 999
+                end
        | ONone, Some m =>
            match spec with
            | Some w => if (r_ver m =? r_ver w) && (r_seq m <? r_seq w) then 11 else 999
